@@ -3381,27 +3381,21 @@ func (p *Posix) DeleteObject(ctx context.Context, input *s3.DeleteObjectInput) (
 				if err != nil {
 					return nil, err
 				}
-				err = os.Remove(objpath)
-				if err != nil {
-					return nil, fmt.Errorf("remove obj version: %w", err)
-				}
 				// a copy of this version left behind by an interrupted
 				// overwrite goes with it
 				os.Remove(filepath.Join(versionPath, *input.VersionId))
 
 				ents, err := os.ReadDir(versionPath)
-				if errors.Is(err, fs.ErrNotExist) {
-					p.removeParents(bucket, object)
-					return &s3.DeleteObjectOutput{
-						DeleteMarker: &isDelMarker,
-						VersionId:    input.VersionId,
-					}, nil
-				}
-				if err != nil {
+				if err != nil && !errors.Is(err, fs.ErrNotExist) {
 					return nil, fmt.Errorf("read version dir: %w", err)
 				}
 
 				if len(ents) == 0 {
+					// no other version: the key is gone with this one
+					err = os.Remove(objpath)
+					if err != nil {
+						return nil, fmt.Errorf("remove obj version: %w", err)
+					}
 					p.removeParents(bucket, object)
 					return &s3.DeleteObjectOutput{
 						DeleteMarker: &isDelMarker,
@@ -3409,6 +3403,9 @@ func (p *Posix) DeleteObject(ctx context.Context, input *s3.DeleteObjectInput) (
 					}, nil
 				}
 
+				// the newest remaining version takes the place of the removed
+				// one in a single step (the rename in link()): the key is at
+				// no moment without a current version
 				srcObjVersion, err := newestObjVersion(ents)
 				if err != nil {
 					return nil, fmt.Errorf("get file info: %w", err)
@@ -3437,10 +3434,6 @@ func (p *Posix) DeleteObject(ctx context.Context, input *s3.DeleteObjectInput) (
 					return nil, fmt.Errorf("copy object %w", err)
 				}
 
-				if err := f.link(); err != nil {
-					return nil, fmt.Errorf("link tmp file: %w", err)
-				}
-
 				attrs, err := p.meta.ListAttributes(versionPath, srcVersionId)
 				if err != nil {
 					return nil, fmt.Errorf("list object attributes: %w", err)
@@ -3455,10 +3448,14 @@ func (p *Posix) DeleteObject(ctx context.Context, input *s3.DeleteObjectInput) (
 						return nil, fmt.Errorf("load %v attribute", attr)
 					}
 
-					err = p.meta.StoreAttribute(nil, bucket, object, attr, data)
+					err = p.meta.StoreAttribute(f.File(), bucket, object, attr, data)
 					if err != nil {
 						return nil, fmt.Errorf("store %v attribute", attr)
 					}
+				}
+
+				if err := f.link(); err != nil {
+					return nil, fmt.Errorf("link tmp file: %w", err)
 				}
 
 				err = os.Remove(filepath.Join(versionPath, srcVersionId))
